@@ -87,7 +87,7 @@ def gen_hot(rng, idx, flavor):
             kind = rng.pick([0, 1, 2])
         r = {"id": i + 1, "kind": kind, "burst": 0, "maxq": 0, "dur": 1, "spec": [], "key": 0}
         if kind == 0:
-            r["thr"] = rng.pick([1, 1, 2, 2, 3, 4, 5 + i])
+            r["thr"] = rng.pick([1, 1, 2, 2, 3, 4, 5 + i, 0])
             r["dur"] = rng.pick([0, 1])
         elif kind == 1:
             r["thr"] = rng.pick([0, 1, 2, 3, 5, 5, 10, 10, 20, 7 + i])
@@ -106,7 +106,7 @@ def gen_hot(rng, idx, flavor):
             r["idx"] = rng.pick([0, 0, 0, 1, -1, -1, -2, 2, 3, -3])
         for v in range(nvals):
             if rng.chance(0.25):
-                r["spec"].append([v, rng.pick([0, 1, 2, 3, 8, 50]) if kind != 0 else rng.pick([1, 2, 3, 6])])
+                r["spec"].append([v, rng.pick([0, 1, 2, 3, 8, 50]) if kind != 0 else rng.pick([1, 2, 3, 6, 0])])
         rules.append(r)
     ops = []
     open_ids = []
